@@ -9,6 +9,8 @@ import (
 	"github.com/superfly/macaroon/auth"
 	"math"
 	"math/big"
+	"os"
+	"os/exec"
 	"runtime"
 	"runtime/debug"
 	"strings"
@@ -659,6 +661,21 @@ func exerciseHeader(h string) {
 func genC12(c *ctx) {
 	unregAnyType = false
 	st := c.set.Stream("malformed", "Corr.RunM", "run", 400)
+	// inputs announcing huge lengths are first decoded in a child process under an address-space limit: if the child dies
+	// the allocation is wire-driven (finding F4) and this process does not repeat it
+	for _, in := range [][]byte{{0xdd, 0x0f, 0xff, 0xff, 0xfe}, {0x92, 0x03, 0x91, 0xdf, 0x7f, 0xff, 0xff, 0xff}, {0xdd, 0x7f, 0xff, 0xff, 0xfe}} {
+		cmd := exec.Command("/bin/sh", "-c", fmt.Sprintf("ulimit -v 3000000; exec %s -decode-hex %x", os.Args[0], in))
+		if out, err := cmd.CombinedOutput(); err != nil {
+			tail := string(out)
+			if len(tail) > 300 {
+				tail = tail[:300]
+			}
+			st.Add(&cs.Case{Coq: "(KSkip [] false 0%N)", Desc: map[string]any{"kind": "length-prefix", "hex": fmt.Sprintf("%x", in)}, Class: "malformed/length-prefix", Nontrivial: true,
+				OracleFail: fmt.Sprintf("decoding the %d-byte input %x in a child process limited to 3 GB of address space fails (%v): %s", len(in), in, err, tail)})
+			c.set.Notes["length_prefix_child"] = "failed: the in-process fuzz is skipped"
+			return
+		}
+	}
 	r := c.r
 	debug.SetGCPercent(100)
 	n := 3000
@@ -674,7 +691,13 @@ func genC12(c *ctx) {
 		// a structurally valid token whose fields are then damaged
 		mm, _ := macaroon.New(r.Bytes(r.Intn(4)), "https://loc.test", key)
 		for k := r.Intn(4); k > 0; k-- {
-			mm.Add(edgeCavSmall(r).Go())
+			// the honest attenuation that builds the base token runs under recover() too: the library must not crash here either
+			cv := edgeCavSmall(r)
+			if res := measure(func() { mm.Add(cv.Go()) }); res.panicked != "" {
+				panics++
+				st.Add(&cs.Case{Coq: "(KSkip [] false 0%N)", Desc: map[string]any{"kind": "attenuate", "caveat": cv.Coq()}, Class: "malformed/attenuate", Nontrivial: true,
+					OracleFail: "panic while adding the caveat " + cv.Coq() + " to a token: " + res.panicked})
+			}
 		}
 		wire, _ := mm.Encode()
 		var input []byte
@@ -839,9 +862,35 @@ func genC12(c *ctx) {
 		}
 		st.Add(&cs.Case{Coq: coqw.App("KSkip", coqw.Packed(input), coqw.Bool(err == nil), coqw.N(uint64(consumed))),
 			Desc: map[string]any{"kind": kind, "hex": fmt.Sprintf("%x", input[:imin(len(input), hexLen)]), "len": len(input), "alloc": res.alloc, "decode_alloc": dres.alloc}, Class: "malformed/" + kind, Nontrivial: true, OracleFail: fail})
+		// the same input as a caveat set: whatever the library accepts, the frame-level model accepts too, with the same frames
+		if len(input) <= 400 && fail == "" {
+			func() {
+				defer func() { recover() }()
+				dset, derr := macaroon.DecodeCaveats(input)
+				var frames []string
+				if derr == nil {
+					for _, cv := range dset.Caveats {
+						frames = append(frames, coqw.Pair(coqw.N(uint64(cv.CaveatType())), coqw.Packed(nil)))
+					}
+				}
+				st.Add(&cs.Case{Coq: coqw.App("KFramesHostile", coqw.Packed(input), coqw.Bool(derr == nil), coqw.List(frames)),
+					Desc: map[string]any{"kind": kind, "op": "DecodeCaveats on a damaged input", "hex": fmt.Sprintf("%x", input[:imin(len(input), 80)]), "impl_ok": derr == nil}, Class: "hostile-frames/" + kind, Nontrivial: derr == nil})
+			}()
+		}
 	}
 	// inputs that are malformed BY CONSTRUCTION must be refused (an error swallowed in a decoder turns them into acceptances):
 	// every registered type with the body `true`; odd-length and truncated caveat arrays; JSON with a mistyped body
+	// decoders are called through safe(): a crash on one of these inputs is reported with the input, not as a dead harness
+	safe := func(what string, f func() error) (err error) {
+		defer func() {
+			if r := recover(); r != nil {
+				st.Add(&cs.Case{Coq: "(KSkip [] false 0%N)", Desc: map[string]any{"kind": "must-reject", "what": what}, Class: "malformed/must-reject", Nontrivial: true,
+					OracleFail: fmt.Sprintf("panic on %s: %v", what, r)})
+				err = fmt.Errorf("panicked")
+			}
+		}()
+		return f()
+	}
 	mustReject := func(what string, accepted bool) {
 		if accepted {
 			st.Add(&cs.Case{Coq: "(KSkip [] false 0%N)", Desc: map[string]any{"kind": "must-reject", "what": what}, Class: "malformed/must-reject", Nontrivial: true,
@@ -854,21 +903,29 @@ func genC12(c *ctx) {
 			if ty == 12 || ty == 19 || ty == 25 {
 				in = append([]byte{0x92, ty}, 0x91, 0x01) // bytes / string typed: an array is the wrong shape
 			}
-			_, err := macaroon.DecodeCaveats(in)
+			err := safe(fmt.Sprintf("caveat set %x", in), func() error { _, e := macaroon.DecodeCaveats(in); return e })
 			mustReject(fmt.Sprintf("caveat set %x (registered type %d with a body of the wrong shape)", in, ty), err == nil)
 			tokIn := append(append([]byte{0x94, 0x93, 0xc4, 0x01, 'k', 0xc4, 0x10}, make([]byte, 16)...), 0xc2, 0xa1, 'l')
 			tokIn = append(append(tokIn, in...), append([]byte{0xc4, 0x20}, make([]byte, 32)...)...)
-			_, terr := macaroon.Decode(tokIn)
+			terr := safe(fmt.Sprintf("token whose caveat set is %x", in), func() error { _, e := macaroon.Decode(tokIn); return e })
 			mustReject(fmt.Sprintf("token whose caveat set is %x", in), terr == nil)
 		}
 	}
 	// the recorded crashers that are malformed must come back as ERRORS (not merely not crash): F3, F4; a token without nonce fields
+	for _, nonce := range [][]byte{{0x92, 0xc3, 0xc4, 0x01, 0x00}, {0x93, 0xc4, 0x01, 'k', 0xc3, 0xc2}, {0x93, 0xc4, 0x01, 'k', 0xc4, 0x01, 0x00, 0xa1, 'x'}, {0x91, 0xc4, 0x01, 'k'}, {0xc3}} {
+		tokIn := append(append([]byte{0x94}, nonce...), 0xa1, 'l', 0x90, 0xc4, 0x20)
+		tokIn = append(tokIn, make([]byte, 32)...)
+		_, err := macaroon.Decode(tokIn)
+		mustReject(fmt.Sprintf("token whose nonce is %x (mistyped / short)", nonce), err == nil)
+		_, nerr := macaroon.DecodeNonce(tokIn)
+		mustReject(fmt.Sprintf("DecodeNonce on a token whose nonce is %x", nonce), nerr == nil)
+	}
 	emptyNonceTok := append([]byte{0x94, 0x90, 0xa1, 'l', 0x90, 0xc4, 0x20}, make([]byte, 32)...)
 	if _, err := macaroon.Decode(emptyNonceTok); true {
 		mustReject("token with an empty nonce array", err == nil)
 	}
 	for _, in := range [][]byte{{0x92, 0xcc, 0xc8, 0x81, 0x91, 0x01, 0x01}, {0xdd, 0x0f, 0xff, 0xff, 0xfe}, {0x91, 0x00}, {0x93, 0x00, 0x92, 0x01, 0x01, 0x04}, {0x92, 0x00}, {0x94, 0x00, 0x92, 0x01, 0x01}, {0x92}, {0xdc, 0x00, 0x03, 0x00, 0x92, 0x01, 0x01, 0x00}} {
-		_, err := macaroon.DecodeCaveats(in)
+		err := safe(fmt.Sprintf("caveat array %x", in), func() error { _, e := macaroon.DecodeCaveats(in); return e })
 		mustReject(fmt.Sprintf("caveat array %x (odd length / truncated)", in), err == nil)
 	}
 	for _, js := range []string{`[{"type":"Organization","body":"x"}]`, `[{"type":"Organization","body":{"id":"one"}}]`, `[{"type":"ValidityWindow","body":{"not_before":"x"}}]`, `[{"type":"Organization","body":{"id":1}`,
